@@ -521,7 +521,7 @@ theorem MirrorInv.step (o : List Addr) (s s' : Sys) (m : Msg) (rest subs : List 
       · have : a = dispA := by have := sb x hin; rw [hxe] at this; exact this
         rw [← own]; exact internal_not_owner w' a (by rw [this]; simp [internal])
       · exact restSenders x hin a b' c d' hxe
-  | reg s1 sender funds rm heq h1 hx' h b t r d =>
+  | reg s1 sender funds rm heq h1 _ _ hx' h b t r d =>
     have own : ownersOf s' = o := by rw [← inv.owners]; simp only [ownersOf, h, d, r]
     have sb : SentBy regA subs := (sent.1 _ _ _ _ heq)
     refine ⟨w', by rw [b]; exact inv.wf, own, ?_, ?_⟩
